@@ -1,7 +1,7 @@
 (* C01 — inbound application messages reach the application in order, exactly once.
    Only statements; every proof is `exact <lemma>` (lemmas in Session/C01Proofs.v). *)
 From Coq Require Import ZArith List.
-From QF Require Import Base.Bytes Session.Types Session.Model Session.Spec Session.C01Proofs.
+From QF Require Import Base.Bytes Session.Types Session.Model Session.Spec Session.C01Proofs Session.SpecCause Session.ResetCauseProofs.
 Import ListNotations.
 Open Scope Z_scope.
 
@@ -23,3 +23,13 @@ Proof. exact c01_model_ok. Qed.
 Theorem c01_step_invariant : forall lb s e, lb <= s_tgt s ->
   exists lb', c01_scan_cbs lb (rev (s_cbs (step s e))) = Some lb' /\ lb' <= s_tgt (step s e).
 Proof. exact c01_handover_at_expected. Qed.
+
+(* "... never moves backwards except through an explicit reset": the store reset that ends an epoch is never spontaneous.
+   With no reset option configured, an event whose log contains a StoreReset is a directly processed Logon carrying
+   ResetSeqNumFlag=Y, the ResetSeqTime crossing, or the application sending a Logon carrying 141=Y (or it handles buffered
+   frames while such a Logon may be buffered): c07_cause_check (Session/SpecCause.v, code 705; C07 cites the same lemma)
+   reports nothing on any trace.  In particular a Logon carrying ResetSeqNumFlag=N, or none, resets nothing.  The check
+   evaluates this predicate on the implementation's log together with c01_check. *)
+Theorem c01_reset_only_when_explicit : forall (c : cfg) (es : list event),
+  c07_cause_check c (combine es (map obs_of (run_trace es (init_sess c)))) = [].
+Proof. exact c07_no_reset_without_cause. Qed.
